@@ -552,6 +552,10 @@ class ForRangeLoop:
     #: the body re-binds the loop variable; iterate with a private counter so that,
     #: as in Python, this does not change the number or the values of iterations
     private_counter: bool = False
+    #: the loop variable is a variable that already exists (a sketch variable, a helper's
+    #: parameter ...): it is assigned on every iteration and keeps its last value after
+    #: the loop instead of being shadowed by a counter of the C++ ``for`` statement
+    outer_variable: bool = False
 
 
 @dataclass
